@@ -122,7 +122,13 @@ def _is_single_qubit_gate_moment(moment: Moment) -> bool:
 
 
 def _is_clifford_op(op: ops.Operation) -> bool:
-    return has_unitary(op) and has_stabilizer_effect(op) and not control_keys(op)
+    # Operations without a gate (e.g. sub-circuits) are walls: Paulis cannot be pulled through them.
+    return (
+        op.gate is not None
+        and has_unitary(op)
+        and has_stabilizer_effect(op)
+        and not control_keys(op)
+    )
 
 
 def _calc_busy_moment_range_of_each_qubit(circuit: FrozenCircuit) -> dict[ops.Qid, list[int]]:
